@@ -222,8 +222,9 @@ impl FixtureDatabase {
             // (last definition wins, as in the same-file case)
             if let Some(def) = definitions
                 .iter()
-                .filter(|def| def.file_path == conftest_path && filter(def))
+                .filter(|def| def.file_path == conftest_path)
                 .max_by_key(|def| def.line)
+                .filter(|def| filter(def))
             {
                 info!(
                     "Found fixture {} in conftest.py: {:?}",
